@@ -7,6 +7,7 @@ from ..model import (AnalysisError, FunctionInfo, ClassInfo, dotted, norm_text,
 from ..cfg import structural_guards, CFG
 from ..rules import validate
 from ..rules import api
+from ..rules import numeric_opts
 
 TECHNIQUE = ('call-graph and dataflow lint: validator coverage (belief and '
              'sibling forms), dispatch totality against validated literal sets, '
@@ -80,6 +81,9 @@ def run(prog, res):
   from . import _c16_synonyms
   _c16_synonyms.run(prog, res)
   _v5(prog, res)
+  numeric_opts.check(prog, res, [f for f in prog.all_functions()
+                                 if f.parent is None])
+  res.floor('N0', 250)
   res.floor('V1', 60)
   res.floor('V1s', 3)
   res.floor('V1p', 8)
